@@ -375,9 +375,49 @@ def r15_9(prog: Program, rep: Report):
     rep.check(ok, "R15.9", gh.qualname, gh.loc, f"on the {len(rejected)} path(s) where typing.get_type_hints rejects the object, the alias's origin is consulted", "when typing.get_type_hints rejects the object (a parameterised user generic such as Box[int] is an alias, not a class) the wrapper goes straight to the signature, which for an alias is (*args, **kwargs): the routine knows no field and unmarshal(Box[int], {'value': 1}) raises TypeError: __init__() missing 1 required positional argument", detail="alias-hints")
 
 
+def alias_substitution(prog: Program, rep: Report, rule: str):
+    """Where the member hints of a parameterised user generic are re-subscripted (`dict[V, K]` of `Index[str, int]` becomes
+    `dict[int, str]`) the new arguments follow the *member's own* parameter order (member.__parameters__), each looked up in the
+    map {class parameter: alias argument}; that map pairs the class's parameters with the alias's arguments in this order."""
+    gh = prog.function(f"{C.INSP}.get_type_hints")
+    ps = P.splice_helpers(prog, P.paths_of(prog, gh))
+    is_zip = lambda x: T.is_call_to(x, "builtins.zip") and len(x[2]) == 2  # noqa: E731
+    sites = {}
+    zips = {}
+    for p in ps:
+        for tm in p.all_terms():
+            for x in T.walk(tm):
+                if x[0] == "sub" and any(c[0] == "comp" and T.contains(c, is_zip) for c in T.walk(x[2])):
+                    sites[x] = None
+                if is_zip(x) and any(T.contains(a, lambda y: y == ("const", "__parameters__") or (y[0] == "attr" and y[2] == "__parameters__")) for a in x[2]):
+                    zips[x] = None
+    if not sites:
+        rep.held(rule, gh.qualname, gh.loc, "no member hint is re-subscripted with substituted arguments", detail="alias-substitution", nontrivial=False)
+        return
+    why = None
+    for x in sites:
+        h, idx = x[1], x[2]
+        c = [c for c in T.walk(idx) if c[0] == "comp" and T.contains(c, is_zip)][0]
+        src = c[3][0][0]
+        own = src == ("attr", h, "__parameters__") or (T.is_call_to(src, "builtins.getattr") and src[2][:2] == (h, ("const", "__parameters__")))
+        if not own:
+            why = f"the new arguments of a generic member are enumerated from {T.show(src)[:60]}, not from the member's own __parameters__: for `inverse: dict[V, K]` in `Index[K, V]` the arguments arrive in the class's order and Index[str, int] gets inverse: dict[str, int]"
+        elif c[4]:
+            why = "the member's parameters are filtered while substituting: a parameter the alias does not bind is dropped and the subscription has the wrong arity"
+    for z in zips:
+        a, b = z[2]
+        a_params = T.contains(a, lambda y: y == ("const", "__parameters__") or (y[0] == "attr" and y[2] == "__parameters__"))
+        b_args = T.contains(b, lambda y: T.is_call_to(y, "typing.get_args") or (y[0] == "attr" and y[2] == "__args__") or y == ("const", "__args__"))
+        if not (a_params and b_args):
+            why = f"the substitution map is built from zip({T.show(a)[:40]}, {T.show(b)[:40]}): its keys are not the class's parameters paired with the alias's arguments"
+    rep.check(why is None, rule, gh.qualname, gh.loc, f"{len(sites)} re-subscription(s): arguments follow the member's own parameter order through the parameter->argument map", why or "", detail="alias-substitution")
+
+
 def run(prog: Program, rep: Report, tier: str):
     rep.rule("R15.9", "hints of a parameterised user generic come from its origin class", floor=1)
     r15_9(prog, rep)
+    rep.rule("R15.10", "substituted arguments of a generic member follow the member's own parameter order", floor=1)
+    alias_substitution(prog, rep, "R15.10")
     rep.rule("R15.8", "helper call cycles on the same object are cut by a flag fixed on re-entry", floor=1)
     r15_8(prog, rep)
     rep.rule("R15.7", "emptiness tests precede constant indexing of the same sequence within one boolean expression", floor=1)
